@@ -73,6 +73,18 @@ CLAIMED["C14"] = dict(
          "without any atoms adopting its first geometry is outside the claim.",
 )
 
+CLAIMED["C01"] = dict(
+    text="Proof of positional-schema agreement: the real serializer and deserializer (v2 and v1, molecule and ensemble) are executed "
+         "symbolically back to back on objects whose every stored value is symbolic (all 9 atom fields, bond fields, endpoints, name, "
+         "charge, multiplicity, attributes, coordinates, charges, weights); each field of the result is proved equal to the source's "
+         "and array shapes/atom order unchanged; the library classes' version switch (never a mixed codec pair) and encoder/decoder "
+         "plumbing are proved path-completely for any header bytes.",
+    ref="DESIGN.md section 3 C01",
+    note="msgpack and the numpy byte codec are assumed contracts (lists->tuples, IntEnum->int, binary32 rounding = the precision of "
+         "the claim); container sizes fixed per unit (0 or 2 atoms, 1 bond, 0..2 conformers); mult=0 is not storable (constructors "
+         "canonicalise it) and excluded by stated precondition; the byte store under the library is C02's subject.",
+)
+
 NOT_APPLICABLE = {
 }
 
